@@ -53,3 +53,16 @@ impl<const K: usize> Dsm<K> {
         })
     }
 }
+
+
+#[cfg(idsp_verif)]
+impl<const K: usize> Dsm<K> {
+    /// Verification hook: construct from raw state.
+    pub fn verif_from_raw(a: [u32; K], c: [i8; K]) -> Self {
+        Self { a, c }
+    }
+    /// Verification hook: raw state `(a, c)`.
+    pub fn verif_raw(&self) -> ([u32; K], [i8; K]) {
+        (self.a, self.c)
+    }
+}
